@@ -52,6 +52,13 @@ PREFER["8"] = ("Seven earlier changes per property are listed above. This time: 
                "returned (flat versus column, real versus complex, numpy scalar versus array) where a documented relation with another function breaks; "
                "(z) a helper imported from another package of the library (matrix_ops, states, perms, helper) used with swapped or missing arguments. "
                "Do NOT reuse any mechanism named in the list above.")
+PREFER["9"] = ("Eight earlier changes per property are listed above. This time make the change hard to meet by accident: (aa) it should need a "
+               "CONJUNCTION of at least two conditions on the input that are each unremarkable alone (for example complex entries AND unequal local "
+               "dimensions AND a particular flag; a degenerate spectrum AND a non-uniform prior; the larger dimension first AND a rank-deficient "
+               "operator); or (bb) it should show only in a size regime beyond the smallest cases (local dimension 4 or 5, four or more subsystems, five "
+               "or more states, NPA level 2, three repetitions) while small cases stay exactly right; or (cc) it should concern a function, argument or "
+               "clause of the statement that the list above shows to be the least covered. Keep the result silently wrong (no exception). Do NOT reuse "
+               "any mechanism named in the list above.")
 TEMPLATE = open(os.path.join(os.path.dirname(os.path.abspath(__file__)), "seedprompt.template.txt")).read()
 os.makedirs(f"/tmp/seeded{ROUND}", exist_ok=True)
 for line in open("/verif/properties.jsonl"):
